@@ -304,11 +304,27 @@ func doCheck(p *Prop, tier string, verifSeed uint64, lanes int, scale, maxMinute
 	fmt.Printf("verif: property=%s tier=%s VERIF_SEED=%d lanes=%d\n", p.ID, tier, verifSeed, lanes)
 	a := newAgg()
 	perBatch := map[string]int{}
+	// a time budget (-max-minutes) is shared between the batches: every batch gets an equal part, and what a
+	// batch leaves unused goes to the ones after it
+	active := 0
+	for i := range p.Batches {
+		b := &p.Batches[i]
+		if n := int(float64(nOf(b, tier)) * scale); n > 0 && (onlyBatch == "" || onlyBatch == b.Name) {
+			active++
+		}
+	}
+	seen := 0
 	for i := range p.Batches {
 		b := &p.Batches[i]
 		n := int(float64(nOf(b, tier)) * scale)
 		if n <= 0 || (onlyBatch != "" && onlyBatch != b.Name) {
 			continue
+		}
+		seen++
+		if maxMinutes > 0 {
+			remaining := time.Until(start.Add(time.Duration(maxMinutes * float64(time.Minute))))
+			share := remaining / time.Duration(active-seen+1)
+			deadline = time.Now().Add(share)
 		}
 		t0 := time.Now()
 		before := a.runs
